@@ -49,6 +49,9 @@ func c03Lines(p c03Params) []string {
 			pad = " " + strings.Repeat("x", 5000)
 		}
 		switch v {
+		case "001bare":
+			// a welcome without any text after the nick (line numbers cannot ride in it: at most one per session)
+			ls = append(ls, ":irc.example 001 me2")
 		case "001":
 			ls = append(ls, fmt.Sprintf(":irc.example 001 me2 :Welcome s%d%s me2!ident@host.example", i, pad))
 		case "PING":
@@ -212,7 +215,7 @@ func c03Oracle(p c03Params, ev []string) []explore.Finding {
 	}
 	n := len(p.Verbs)
 	fgHandlers := func(v string) int {
-		if v == "PRIVMSG" || v == "001" {
+		if v == "PRIVMSG" || v == "001" || v == "001bare" {
 			return 2
 		}
 		return 1
@@ -225,7 +228,7 @@ func c03Oracle(p c03Params, ev []string) []explore.Finding {
 	perHandler := map[string]int{} // "line handler" -> foreground entries
 	welcomeLine := -1
 	for i, v := range p.Verbs {
-		if v == "001" && welcomeLine < 0 {
+		if (v == "001" || v == "001bare") && welcomeLine < 0 {
 			welcomeLine = i
 		}
 	}
@@ -395,6 +398,12 @@ func init() {
 			for _, eol := range []string{"lf", "mixed"} {
 				for _, segs := range []string{"one", "each"} {
 					jobs = append(jobs, ExploreJob("C03", ExploreSpec{Sc: c03Scenario(c03Params{Verbs: patterns[0], End: "quiet-eof", Segs: segs, EOL: eol, Cuts: true}), Variants: []int{1, 3}, Budgets: []explore.Budget{{0, 0}, {1, 0}, {0, 1}, {1, 1}}, Cache: true}, 20))
+				}
+			}
+			// a welcome line that is just ":server 001 nick"
+			for _, pat := range [][]string{{"PRIVMSG", "001bare", "PRIVMSG"}, {"001bare", "PING", "NOTICE"}} {
+				for _, end := range []string{"quiet-eof", "eof"} {
+					jobs = append(jobs, ExploreJob("C03", ExploreSpec{Sc: c03Scenario(c03Params{Verbs: pat, End: end, Segs: "one", Yields: 1}), Variants: []int{1, 2, 3}, Budgets: budgets, Cache: true}, 30))
 				}
 			}
 			// handlers that take five virtual minutes each (longer than any timeout the library knows)
